@@ -60,8 +60,9 @@ const (
 	OpAdd // n-ary
 	OpMul // n-ary
 	OpRDiv
-	OpIDiv // SMT-LIB div (euclidean)
-	OpIMod // SMT-LIB mod (euclidean)
+	OpRecip // 1/x
+	OpIDiv  // SMT-LIB div (euclidean)
+	OpIMod  // SMT-LIB mod (euclidean)
 	OpLt
 	OpLe
 	OpToReal
@@ -604,31 +605,78 @@ func (s *Store) Mul(ts ...*Term) *Term {
 		}
 	}
 	c := big.NewRat(1, 1)
-	var fs []*Term
-	var visit func(t *Term)
-	visit = func(t *Term) {
+	exp := map[int]int{}
+	base := map[int]*Term{}
+	var order []int
+	var visit func(t *Term, sign int)
+	visit = func(t *Term, sign int) {
 		if t.Sort != so {
 			panic(fmt.Sprintf("mul sort mismatch: %s", s.Show(t)))
 		}
 		switch t.Op {
 		case OpConst:
-			c.Mul(c, constRat(t))
+			if sign > 0 {
+				c.Mul(c, constRat(t))
+			} else {
+				c.Quo(c, constRat(t))
+			}
 		case OpMul:
 			for _, a := range t.Args {
-				visit(a)
+				visit(a, sign)
 			}
+		case OpRecip:
+			if t.Args[0].Op == OpConst { // Recip(0): keep opaque
+				if _, ok := base[t.ID]; !ok {
+					base[t.ID] = t
+					order = append(order, t.ID)
+				}
+				exp[t.ID] += sign
+				return
+			}
+			visit(t.Args[0], -sign)
 		default:
-			fs = append(fs, t)
+			if _, ok := base[t.ID]; !ok {
+				base[t.ID] = t
+				order = append(order, t.ID)
+			}
+			exp[t.ID] += sign
 		}
 	}
 	for _, t := range ts {
-		visit(t)
+		visit(t, 1)
 	}
 	if c.Sign() == 0 {
 		return s.zero(so)
 	}
+	var fs []*Term
+	sort.Ints(order)
+	for _, id := range order {
+		n := exp[id]
+		b := base[id]
+		for ; n > 0; n-- {
+			fs = append(fs, b)
+		}
+		if n < 0 {
+			r := s.intern(&Term{Op: OpRecip, Sort: SReal, Args: []*Term{b}})
+			for ; n < 0; n++ {
+				fs = append(fs, r)
+			}
+		}
+	}
 	if len(fs) == 0 {
 		return s.mkConst(so, c)
+	}
+	// distribute over a clamp-like ite (one constant branch)
+	if len(fs) >= 2 || c.Cmp(big.NewRat(1, 1)) != 0 {
+		for i, f := range fs {
+			if f.Op == OpIte && (f.Args[1].Op == OpConst || f.Args[2].Op == OpConst) {
+				rest := append(append([]*Term{}, fs[:i]...), fs[i+1:]...)
+				rest = append(rest, s.mkConst(so, c))
+				a := s.Mul(append([]*Term{f.Args[1]}, rest...)...)
+				b := s.Mul(append([]*Term{f.Args[2]}, rest...)...)
+				return s.Ite(f.Args[0], a, b)
+			}
+		}
 	}
 	sort.Slice(fs, func(i, j int) bool { return fs[i].ID < fs[j].ID })
 	one := big.NewRat(1, 1)
@@ -649,21 +697,44 @@ func (s *Store) Mul(ts ...*Term) *Term {
 	return s.intern(&Term{Op: OpMul, Sort: so, Args: append([]*Term{s.mkConst(so, c)}, fs...)})
 }
 
-func (s *Store) RDiv(a, b *Term) *Term {
-	if b.Op == OpConst {
-		if b.R.Sign() == 0 {
-			// caller records definedness; keep symbolic
-			return s.intern(&Term{Op: OpRDiv, Sort: SReal, Args: []*Term{a, b}})
+// Recip is 1/x in power-product normal form (x*(1/x) cancels; the caller
+// records the definedness condition x != 0).
+func (s *Store) Recip(x *Term) *Term {
+	switch x.Op {
+	case OpConst:
+		if x.R.Sign() != 0 {
+			return s.Rat(new(big.Rat).Inv(x.R))
 		}
-		return s.Mul(s.Rat(new(big.Rat).Inv(b.R)), a)
+	case OpRecip:
+		return x.Args[0]
+	case OpMul:
+		fs := make([]*Term, len(x.Args))
+		for i, a := range x.Args {
+			fs[i] = s.Recip(a)
+		}
+		return s.Mul(fs...)
 	}
+	if isConstTree(x) && !hasZeroLeafR(x) {
+		return s.lift1(x, s.Recip)
+	}
+	return s.intern(&Term{Op: OpRecip, Sort: SReal, Args: []*Term{x}})
+}
+
+func hasZeroLeafR(t *Term) bool {
+	if t.Op == OpConst {
+		return t.R.Sign() == 0
+	}
+	if t.Op == OpIte {
+		return hasZeroLeafR(t.Args[1]) || hasZeroLeafR(t.Args[2])
+	}
+	return false
+}
+
+func (s *Store) RDiv(a, b *Term) *Term {
 	if a.Op == OpConst && a.R.Sign() == 0 {
 		return a
 	}
-	if r, ok := s.lift2(a, b, s.RDiv); ok {
-		return r
-	}
-	return s.intern(&Term{Op: OpRDiv, Sort: SReal, Args: []*Term{a, b}})
+	return s.Mul(a, s.Recip(b))
 }
 
 func eucDivMod(a, b *big.Int) (*big.Int, *big.Int) {
@@ -722,6 +793,25 @@ func (s *Store) cmp(op Op, a, b *Term) *Term {
 	}
 	if r, ok := s.lift2(a, b, func(x, y *Term) *Term { return s.cmp(op, x, y) }); ok {
 		return r
+	}
+	// normalise  c op k*u  /  k*u op c  (real sort): divide by the constant factor
+	if a.Sort.K == KReal {
+		if a.Op == OpConst && b.Op == OpMul && b.Args[0].Op == OpConst {
+			k, u := s.splitCoeff(b)
+			c := s.Rat(new(big.Rat).Quo(a.R, k))
+			if k.Sign() > 0 {
+				return s.cmp(op, c, u)
+			}
+			return s.cmp(op, u, c)
+		}
+		if b.Op == OpConst && a.Op == OpMul && a.Args[0].Op == OpConst {
+			k, u := s.splitCoeff(a)
+			c := s.Rat(new(big.Rat).Quo(b.R, k))
+			if k.Sign() > 0 {
+				return s.cmp(op, u, c)
+			}
+			return s.cmp(op, c, u)
+		}
 	}
 	return s.intern(&Term{Op: op, Sort: SBool, Args: []*Term{a, b}})
 }
@@ -825,6 +915,8 @@ func (t *Term) opName() string {
 		return "*"
 	case OpRDiv:
 		return "/"
+	case OpRecip:
+		return "/ 1.0"
 	case OpIDiv:
 		return "div"
 	case OpIMod:
